@@ -353,11 +353,35 @@ def call_unbalanced(case, X, noise='case', kernel=None):
 
 
 def sub_cases(case):
-    """the datasets of a list input as single-dataset cases (first = the case itself)"""
+    """the datasets of a list input as single-dataset cases (first = the case itself).  A member
+    overrides any of: vals, noise, labels, folds, cond_kind, fold_kind, dtype, order, scale, mask
+    (round 4: members with their own design); method, weighting, priors, descriptor names, noise
+    mode are arguments of the one call and therefore shared."""
     out = [dict(case, extra=None)]
     for e in case.get('extra') or []:
-        out.append(dict(case, vals=e['vals'], noise=e['noise'], extra=None, one=None))
+        out.append(dict(case, **dict(e, extra=None, one=None)))
     return out
+
+
+def to_first(labels0, labels):
+    """labels of a member expressed by the equal labels of the first dataset (3.0 -> 3 ...)"""
+    out = []
+    for l in labels:
+        hit = [l0 for l0 in labels0 if l0 == l and isinstance(l0, bool) == isinstance(l, bool)]
+        out.append(hit[0] if hit else l)
+    return out
+
+
+def member_map(case, sub, labels, rdm):
+    """pair map of a member's own result, keyed like the rows of the list result (which carry the
+    labels of the first dataset; `concat` reorders the later ones to that order)"""
+    return as_map(to_first(first_appearance(case['labels']), labels), rdm)
+
+
+def reads_past_buffer(case):
+    """region of the known mahalanobis finding: values are not reproducible between two calls"""
+    return KERNEL[case['method']] == 'mahalanobis' and any(
+        c['noise'] is not None and has_missing(c) for c in sub_cases(case))
 
 
 def call_list(case):
@@ -371,6 +395,12 @@ def call_list(case):
         N = [_noise(c) for c in subs]
     else:
         N = _noise(case)
+    cont = case.get('container', 'list')
+    if cont == 'tuple':
+        dss = tuple(dss)
+        N = tuple(N) if isinstance(N, list) else N
+    elif cont == 'iter':
+        dss = iter(dss)
     try:
         with warnings.catch_warnings():
             warnings.simplefilter('ignore')
@@ -478,7 +508,7 @@ def observe(case, full=False):
             return {'exc': 'list:' + m['exc']}
         if m['labels'] != r['labels']:
             return {'exc': 'list:labels'}
-        r['multi'] = m['rows']
+        r['multi'] = [as_map(m['labels'], row) for row in m['rows']]
     return r
 
 
@@ -655,6 +685,35 @@ def _fail(what, observed, expected, **feat):
     return {'what': what, 'observed': observed, 'expected': expected, 'features': feat}
 
 
+def _list_vs_alone(case, base, atol):
+    """every row of the result for a list (tuple, iterator) of datasets against the same dataset
+    computed alone, as pair maps keyed by the labels of the first dataset"""
+    subs = sub_cases(case)
+    m = call_list(case)
+    if 'exc' in m:
+        return _fail('calc_rdm_unbalanced raised on a list of datasets each of which it handles alone',
+                     m['exc'], 'one row per dataset', violation='list-input', signature='none')
+    if m['labels'] != base['labels'] or len(m['rows']) != len(subs):
+        return _fail('a list of datasets: rows / labels are not those of the datasets',
+                     [m['labels'], len(m['rows'])], [base['labels'], len(subs)],
+                     violation='list-input', signature='none')
+    for k, sc in enumerate(subs):
+        alone = base if k == 0 else call_unbalanced(sc, _matrix(sc))
+        if 'exc' in alone:
+            if k == 0:
+                continue
+            return None            # judged by the per-dataset statements below
+        want = member_map(case, sc, alone['labels'], alone['rdm'])
+        got = as_map(m['labels'], m['rows'][k])
+        d = map_diff(got, want, 1e-12, 1e-12 + atol * 1e-3)
+        if d:
+            rel = sc.get('rel')
+            return _fail(f'dataset {k} of a list input differs from the same dataset computed alone'
+                         + (f' (related to its predecessor by: {rel})' if rel else '') + ': ' + d,
+                         got, want, violation='list-input', signature='none', member=k)
+    return None
+
+
 def oracle(case, light=False):
     """None if the property holds for this case on the real code, else a finding"""
     base = call_unbalanced(case, _matrix(case))
@@ -671,6 +730,16 @@ def oracle(case, light=False):
     if base['labels'] != uniq:
         return _fail('conditions are not labelled in order of first appearance',
                      base['labels'], uniq, violation='labels', signature='none')
+    # 1b. a list of datasets gives, row by row (pairs named by the labels of the first dataset),
+    #     what each dataset gives alone.  Before the per-dataset statements, so that a known
+    #     finding of one member does not hide a defect of the list handling; not where the kernel
+    #     reads past its buffers (values differ from call to call).
+    list_done = False
+    if case.get('extra') and not light and not reads_past_buffer(case):
+        f = _list_vs_alone(case, base, atol)
+        if f:
+            return f
+        list_done = True
     # 2. every pair = the average over admissible observation pairs (NaN iff none is valid):
     #    the dissimilarities and the raw buffer of the kernel (self and cross averages)
     observed = base['rdm'] + (base['buf'] or [])
@@ -708,20 +777,34 @@ def oracle(case, light=False):
             return _fail(f'result depends on dtype/memory layout ({dtype}, {order})',
                          v.get('rdm', v), base['rdm'], violation='layout', signature='none')
     # 5b. a list of datasets gives, row by row, what each dataset gives alone
-    if case.get('extra'):
+    if case.get('extra') and not light:
         subs = sub_cases(case)
-        for sc in subs[1:]:
+        for k, sc in enumerate(subs[1:], start=1):
             o = oracle(sc, light=True)
             if o:
-                o['what'] = 'dataset of a list input: ' + o['what']
+                o['what'] = f'dataset {k} of a list input, taken alone: ' + o['what']
+                # known findings are matched on the features of the dataset that fails
+                o['features'].update(has_missing=has_missing(sc), noise_given=sc['noise'] is not None,
+                                     crossval=crossval_of(sc), member=k)
                 return o
+        if not list_done:
+            f = _list_vs_alone(case, base, atol)
+            if f:
+                return f
+        # ... and therefore the brute-force pair average of its own observations (own folds)
         m = call_list(case)
-        singles = [base['rdm']] + [call_unbalanced(sc, _matrix(sc)).get('rdm') for sc in subs[1:]]
-        if 'exc' in m or m['labels'] != base['labels'] or len(m['rows']) != len(singles) or any(
-                s is None or vec_diff(row, s, 1e-12, 1e-12 + atol * 1e-3)
-                for row, s in zip(m['rows'], singles)):
-            return _fail('a list of datasets does not give the per-dataset results',
-                         m.get('rows', m), singles, violation='list-input', signature='none')
+        for k, sc in enumerate(subs):
+            try:
+                uq, _, Dk = spec(sc)
+            except Degenerate:
+                continue
+            want = as_map(to_first(uniq, uq), Dk)
+            got = as_map(m['labels'], m['rows'][k])
+            d = map_diff(got, want, 1e-9, max(atol, _scale(Dk)))
+            if d:
+                return _fail(f'dataset {k} of a list input is not the average over its own admissible '
+                             'observation pairs: ' + d, got, want, violation='list-input',
+                             signature='none', member=k)
     # 6. the single-pair helper agrees with the full computation
     if case.get('one') and base['buf'] is not None:
         a, b = case['one']
@@ -801,8 +884,103 @@ def _consistent(case):
     return True
 
 
+MEMBER_KEYS = ('vals', 'noise', 'labels', 'folds', 'cond_kind', 'fold_kind', 'dtype', 'order', 'scale',
+               'mask')
+
+
+def _shrink_list(case, still_fails):
+    """list input: fewer datasets, fewer observations per dataset (keeping every condition in
+    every dataset), fewer channels, plain layout / container"""
+    def ok(c):
+        try:
+            return bool(still_fails(c))
+        except Exception:  # noqa: BLE001  (an inconsistent candidate is simply not taken)
+            return False
+
+    cur = copy.deepcopy(case)
+    subs = sub_cases(cur)
+    cur['extra'] = [dict({k: copy.deepcopy(sc.get(k)) for k in MEMBER_KEYS}, rel=e.get('rel'))
+                    for sc, e in zip(subs[1:], cur['extra'])]
+    for _round in range(4):
+        changed = False
+        for k in reversed(range(len(cur['extra']))):            # drop a later dataset
+            if len(cur['extra']) < 2:
+                break
+            c = copy.deepcopy(cur)
+            del c['extra'][k]
+            if ok(c):
+                cur, changed = c, True
+        if len(cur['extra']) >= 2:                               # drop the first dataset
+            c = copy.deepcopy(cur)
+            first = c['extra'].pop(0)
+            c.update({k: first[k] for k in MEMBER_KEYS})
+            c['one'] = None
+            if ok(c):
+                cur, changed = c, True
+        for m in range(len(cur['extra']) + 1):                   # drop observations
+            tgt = (lambda c: c) if m == 0 else (lambda c, m=m: c['extra'][m - 1])
+            for i in reversed(range(len(tgt(cur)['labels']))):
+                c = copy.deepcopy(cur)
+                t = tgt(c)
+                lab = t['labels'][i]
+                if sum(1 for l in t['labels'] if l == lab) < 2:
+                    continue
+                del t['labels'][i]
+                del t['vals'][i]
+                if t['folds'] is not None:
+                    del t['folds'][i]
+                if m == 0 and c.get('one') and not all(l in c['labels'] for l in c['one']):
+                    c['one'] = None
+                if ok(c):
+                    cur, changed = c, True
+        allm = [cur] + cur['extra']
+        if len({len(t['vals'][0]) for t in allm}) == 1:          # drop a channel everywhere
+            minP = 3 if KERNEL[cur['method']] == 'correlation' else 1
+            for ch in reversed(range(len(cur['vals'][0]))):
+                if len(cur['vals'][0]) <= minP:
+                    break
+                c = copy.deepcopy(cur)
+                for t in [c] + c['extra']:
+                    for row in t['vals']:
+                        del row[ch]
+                    if t['noise'] is not None:
+                        t['noise'] = [[v for l, v in enumerate(r) if l != ch]
+                                      for k2, r in enumerate(t['noise']) if k2 != ch]
+                if ok(c):
+                    cur, changed = c, True
+        for key, val in (('one', None), ('container', 'list')):
+            if cur.get(key) != val:
+                c = copy.deepcopy(cur)
+                c[key] = val
+                if ok(c):
+                    cur, changed = c, True
+        for m in range(len(cur['extra']) + 1):
+            for key, val in (('order', 'C'), ('dtype', 'float')):
+                c = copy.deepcopy(cur)
+                t = c if m == 0 else c['extra'][m - 1]
+                if t.get(key) != val:
+                    t[key] = val
+                    if ok(c):
+                        cur, changed = c, True
+        if not changed:
+            break
+    return cur
+
+
 def shrink(case, still_fails):
     cur = copy.deepcopy(case)
+    if cur.get('extra'):
+        # a failure of the list handling stays a list; a failure of one dataset may lose the list
+        lst = _shrink_list(cur, still_fails)
+        c = copy.deepcopy(lst)
+        c['extra'] = None
+        try:
+            alone = bool(still_fails(c))
+        except Exception:  # noqa: BLE001
+            alone = False
+        if not alone:
+            return lst
+        cur = c
     changed = True
     rounds = 0
     while changed and rounds < 6:
